@@ -5,7 +5,6 @@ CONSTANTS
   RefBoundNeg = 9000
   OptBoundNeg = 9000
   TermBoundNeg = 10000
-  TermBoundCxLNeg = 5500
 INIT TInit
 NEXT TNext
 INVARIANT Verdict
